@@ -266,8 +266,8 @@ def unwrap_newtypes(raw, ref, crate):
         if a["path"] in known or a["kind"] != "Struct" or a.get("vis") == "pub":
             continue
         fs = a["variants"][0]["fields"]
-        if len(fs) != 1 or "<" in a["path"]:
-            continue
+        if len(fs) != 1 or "<" in a["path"] or fs[0]["ty"] == "()" or a["path"] in {x["path"] for x in raw.get("statics", [])}:
+            continue                      # (lazy_static! generates a unit-like struct named like its static)
         news[a["path"]] = fs[0]["ty"]
     if not news:
         return None, []
